@@ -57,7 +57,7 @@ theorem no_overlap (s : Life.C01.St) (cb1 cb2 : Cb) (a1 a2 : Arg) (rest : List E
 /-- A full graceful life: spawn, pre_start ok, post_start ok, one message, stop, post_stop. -/
 def demoOps : List AOp :=
   [.spawn none, .resume ⟨[], .ok⟩, .pollSpawn true, .poll, .resume ⟨[.sendSelf 7], .ok⟩, .poll,
-   .resume ⟨[], .tick⟩, .poll, .stop .none, .resume ⟨[], .ok⟩, .poll, .resume ⟨[], .ok⟩, .poll]
+   .resume ⟨[], .tick⟩, .poll, .stop none, .resume ⟨[], .ok⟩, .poll, .resume ⟨[], .ok⟩, .poll]
 
 example : trace 0 demoOps =
     [.enter .preStart .none, .tick .preStart, .exit .preStart .ok, .spawnRet .ok,
